@@ -75,7 +75,18 @@ func runC12(c *Ctx) {
 		c.Undecided(rule, name+"|get", serve.Pos(), fmt.Sprintf("expected one lru.Get, found %d", len(gets)))
 	} else {
 		keyv := gets[0].Call.Args[1]
-		sl := backSlice(keyv, nil)
+		// direct ingredients only: do not look through the calls that produce them
+		// (fmt.Sprintf and string concatenation are the only calls expanded)
+		sl := backSlice(keyv, func(v ssa.Value) bool {
+			call, ok := v.(*ssa.Call)
+			if !ok {
+				return false
+			}
+			if f := calleeOf(call.Common()); f != nil && f.Pkg() != nil && (f.Pkg().Path() == "fmt" || f.Pkg().Path() == "strings") {
+				return false
+			}
+			return true
+		})
 		fLoc := c.Field("db", "Location", "LocID")
 		has := map[string]bool{}
 		for v := range sl {
@@ -217,6 +228,50 @@ func runC12(c *Ctx) {
 		}
 	}
 	c.Floor(rule, 3)
+
+	// ---- C12.hit-reply
+	rule = "C12.hit-reply"
+	c.Rule(rule, "every message obtained by Copy() from a cache entry is passed to (*dns.Msg).SetReply with the current request before it is written: id, opcode and the question section (original case) must come from the query being answered, not from the query that populated the entry")
+	nhit := 0
+	for _, ci := range callInstrs(serve) {
+		call, ok := ci.(*ssa.Call)
+		if !ok || !copyF(calleeOf(call.Common())) {
+			continue
+		}
+		// is the receiver a cache entry's response?
+		fromEntry := false
+		switch x := call.Call.Args[0].(type) {
+		case *ssa.Field:
+			fromEntry = fieldOf(x) == fResp
+		case *ssa.UnOp:
+			if fa, isFA := x.X.(*ssa.FieldAddr); isFA {
+				fromEntry = fieldOf(fa) == fResp
+			}
+		}
+		if !fromEntry {
+			continue
+		}
+		nhit++
+		okr := false
+		for _, x := range callInstrs(serve) {
+			f := calleeOf(x.Common())
+			if f != nil && f.Pkg() != nil && f.Pkg().Path() == dnsPkg && funcShort(f) == "Msg.SetReply" && len(x.Common().Args) == 2 &&
+				x.Common().Args[0] == ssa.Value(call) && instrDominates(call, x) {
+				if p, isP := x.Common().Args[1].(*ssa.Parameter); isP && p.Type().String() == "*"+dnsPkg+".Msg" {
+					// and it precedes the write of that message
+					for _, w := range callInstrs(serve) {
+						if sf := w.Common().StaticCallee(); sf != nil && sf.Name() == "writeAndLog" && len(w.Common().Args) >= 3 && sameSources(w.Common().Args[2], call) && instrDominates(x, w) {
+							okr = true
+						}
+					}
+				}
+			}
+		}
+		c.Check(rule, fmt.Sprintf("%s|hit-copy#%d|SetReply-with-request", name, nhit), okr, call.Pos(), "a cache hit must answer THIS query: SetReply(r) on the copy, before it is written")
+	}
+	if nhit == 0 {
+		c.Undecided(rule, name+"|hit", serve.Pos(), "no cache-hit copy found")
+	}
 
 	// ---- C12.before-opt
 	rule = "C12.before-opt"
